@@ -50,6 +50,8 @@ def build(MIN, SIZE, J, with_close):
         m.declare("refused[%d]" % j, "bool", z3.BoolVal(False))
         m.declare("submitted[%d]" % j, "bool", z3.BoolVal(False))
     m.declare("late_start", "bool", z3.BoolVal(False))
+    for i in range(W):
+        m.declare("told[%d]" % i, "bool", z3.BoolVal(False))      # close() handed this worker the stop marker
     m.declare("close_returned", "bool", z3.BoolVal(False))
 
     # ---- abstract operations ---------------------------------------------------------------------
@@ -101,6 +103,10 @@ def build(MIN, SIZE, J, with_close):
 
     def ev_set(ev, ctx, recv, args):
         ev.store_back(ctx, recv, z3.BoolVal(True))
+        if ctx.thread.name == "closer" and recv.origin and recv.origin[0] == "field":
+            base = recv.origin[1]
+            for i in range(W):
+                ctx.set("told[%d]" % i, z3.Or(ctx.get("told[%d]" % i), base.term == bv(i)))
         return NONE
 
     def ev_clear(ev, ctx, recv, args):
@@ -241,8 +247,9 @@ def check(MIN, SIZE, J, with_close, K, timeout_s=600, preempt=None, exclude=()):
                                                                st["Job[%d].execs" % j] == bv(1))
         if with_close:
             for i in range(W):
-                conds["worker%d-exits-after-close" % i] = z3.Implies(z3.And(st["Worker[%d].started" % i], st["close_returned"]),
-                                                                      st["worker%d.outcome" % i] != bv(0))
+                stuck = z3.And(st["Worker[%d].started" % i], st["close_returned"], st["worker%d.outcome" % i] == bv(0))
+                conds["worker%d-that-close-told-to-stop-exits" % i] = z3.Not(z3.And(stuck, st["told[%d]" % i]))
+                conds["worker%d-in-transit-during-close-exits" % i] = z3.Not(z3.And(stuck, z3.Not(st["told[%d]" % i])))
         return conds
     bad = []
     for k, st in enumerate(states):
